@@ -372,7 +372,9 @@ struct LayerSpec {
     size: (i32, i32),
     default_page: usize,
     /// 0: lines as `Layer::new` + `set_char` leave them; 1: trailing invisible cells and lines cut off (sparse lines);
-    /// 2: every line gets two extra cells beyond the width and two extra lines are appended
+    /// 2: every line gets two extra cells beyond the width and two extra lines are appended;
+    /// 3: the lines are written DIRECTLY from the spec (own grid, `Line::chars` filled by hand), bypassing `Layer::set_char` —
+    ///    the function the loader itself uses to rebuild a layer — so that the source document does not depend on it
     shape: u8,
     ops: Vec<CellOp>,
 }
@@ -396,8 +398,59 @@ struct DocSpec {
     size: (i32, i32),
     sauce: Option<SauceSpec>,
     palette: Vec<(u8, u8, u8)>,
-    fonts: Vec<(usize, usize)>, // slot -> ANSI font page number of the built-in font used
+    fonts: Vec<(usize, FontSpec)>, // slot -> font
     layers: Vec<LayerSpec>,
+}
+
+/// what sits in a font slot
+#[derive(Clone, Debug, PartialEq)]
+enum FontSpec {
+    /// the built-in font of that ANSI font page (all 8 pixels wide)
+    Builtin(usize),
+    /// `BitFont::create_8(name, w, h, data)` — any width / height — with `len` (256 or 512) glyphs whose rows follow
+    /// pattern `pat`: 0 all 0x00, 1 all 0xFF, 2 glyph index, 3 byte position, 4 only the bits inside the width,
+    /// otherwise seeded bytes
+    Custom { w: u8, h: u8, len: u16, pat: u64, name: String },
+}
+
+impl FontSpec {
+    fn to_text(&self) -> String {
+        match self {
+            FontSpec::Builtin(p) => p.to_string(),
+            FontSpec::Custom { w, h, len, pat, name } => format!("c{w}.{h}.{len}.{pat}.{}", hexs(name)),
+        }
+    }
+    fn from_text(t: &str) -> Option<FontSpec> {
+        if let Some(c) = t.strip_prefix('c') {
+            let v: Vec<&str> = c.split('.').collect();
+            if v.len() != 5 {
+                return None;
+            }
+            Some(FontSpec::Custom { w: v[0].parse().ok()?, h: v[1].parse().ok()?, len: v[2].parse().ok()?, pat: v[3].parse().ok()?, name: unhexs(v[4]) })
+        } else {
+            Some(FontSpec::Builtin(t.parse().ok()?))
+        }
+    }
+}
+
+/// glyph rows of a custom font: `len * h` bytes
+fn font_pattern(w: u8, h: u8, len: u16, pat: u64) -> Vec<u8> {
+    let n = len as usize * h as usize;
+    match pat {
+        0 => vec![0u8; n],
+        1 => vec![0xFFu8; n],
+        2 => (0..n).map(|i| (i / (h as usize).max(1)) as u8).collect(),
+        3 => (0..n).map(|i| i as u8).collect(),
+        4 => {
+            let mask: u8 = if w >= 8 { 0xFF } else { !(0xFFu8 >> w) };
+            let mut r = Rng::new(pat);
+            (0..n).map(|_| r.next() as u8 & mask).collect()
+        }
+        _ => {
+            let mut r = Rng::new(pat);
+            (0..n).map(|_| r.next() as u8).collect()
+        }
+    }
 }
 
 fn hexs(s: &str) -> String {
@@ -435,7 +488,7 @@ impl DocSpec {
         }
         s.push_str("|F");
         for (i, (slot, f)) in self.fonts.iter().enumerate() {
-            let _ = write!(s, "{}{}:{}", if i > 0 { "," } else { "" }, slot, f);
+            let _ = write!(s, "{}{}:{}", if i > 0 { "," } else { "" }, slot, f.to_text());
         }
         for l in &self.layers {
             let _ = write!(
@@ -484,10 +537,10 @@ impl DocSpec {
                     if v.len() != 6 {
                         return None;
                     }
-                    d.bt = v[0] as u8;
-                    d.ice = v[1] as u8;
-                    d.pal_mode = v[2] as u8;
-                    d.font_mode = v[3] as u8;
+                    d.bt = (v[0] as usize % BUFFER_TYPES.len()) as u8;
+                    d.ice = (v[1] as usize % ICE_MODES.len()) as u8;
+                    d.pal_mode = (v[2] as usize % PALETTE_MODES.len()) as u8;
+                    d.font_mode = (v[3] as usize % FONT_MODES.len()) as u8;
                     d.size = (v[4] as i32, v[5] as i32);
                 }
                 "S" => {
@@ -514,7 +567,7 @@ impl DocSpec {
                 "F" => {
                     for e in body.split(',').filter(|e| !e.is_empty()) {
                         let mut it = e.split(':');
-                        d.fonts.push((it.next()?.parse().ok()?, it.next()?.parse().ok()?));
+                        d.fonts.push((it.next()?.parse().ok()?, FontSpec::from_text(it.next()?)?));
                     }
                 }
                 "L" => {
@@ -570,7 +623,7 @@ impl DocSpec {
             }
         }
         if d.fonts.is_empty() {
-            d.fonts.push((0, 0));
+            d.fonts.push((0, FontSpec::Builtin(0)));
         }
         if d.palette.is_empty() {
             d.palette = Palette::dos_default().color_iter().map(|c| c.get_rgb()).collect();
@@ -633,8 +686,44 @@ fn to_char(c: &CellSpec) -> AttributedChar {
     AttributedChar::new(char::from_u32(c.ch).unwrap_or('?'), a)
 }
 
-fn bt_of(b: u8) -> BufferType {
-    BufferType::from_byte(b)
+// The four header modes are built and observed by VARIANT (index in declaration order), through the tables below —
+// never through the crate's own `from_byte` / `to_byte`, which are what is being checked.
+const BUFFER_TYPES: [BufferType; 5] = [BufferType::Unicode, BufferType::CP437, BufferType::Petscii, BufferType::Atascii, BufferType::Viewdata];
+const ICE_MODES: [IceMode; 3] = [IceMode::Unlimited, IceMode::Blink, IceMode::Ice];
+const PALETTE_MODES: [PaletteMode; 4] = [PaletteMode::RGB, PaletteMode::Fixed16, PaletteMode::Free8, PaletteMode::Free16];
+const FONT_MODES: [FontMode; 4] = [FontMode::Unlimited, FontMode::Sauce, FontMode::Single, FontMode::FixedSize];
+
+fn bt_num(b: BufferType) -> u8 {
+    match b {
+        BufferType::Unicode => 0,
+        BufferType::CP437 => 1,
+        BufferType::Petscii => 2,
+        BufferType::Atascii => 3,
+        BufferType::Viewdata => 4,
+    }
+}
+fn ice_num(m: IceMode) -> u8 {
+    match m {
+        IceMode::Unlimited => 0,
+        IceMode::Blink => 1,
+        IceMode::Ice => 2,
+    }
+}
+fn pal_num(m: PaletteMode) -> u8 {
+    match m {
+        PaletteMode::RGB => 0,
+        PaletteMode::Fixed16 => 1,
+        PaletteMode::Free8 => 2,
+        PaletteMode::Free16 => 3,
+    }
+}
+fn fm_num(m: FontMode) -> u8 {
+    match m {
+        FontMode::Unlimited => 0,
+        FontMode::Sauce => 1,
+        FontMode::Single => 2,
+        FontMode::FixedSize => 3,
+    }
 }
 
 fn build_layer(l: &LayerSpec, pages: &[usize]) -> Layer {
@@ -652,7 +741,12 @@ fn build_layer(l: &LayerSpec, pages: &[usize]) -> Layer {
     };
     layer.properties.color = l.color.map(|(r, g, b)| Color::new(r, g, b));
     layer.transparency = l.transparency;
-    layer.set_offset(l.off);
+    if l.shape == 3 {
+        // direct construction: the public field, not the setter the loader calls
+        layer.properties.offset = icy_engine::Position::new(l.off.0, l.off.1);
+    } else {
+        layer.set_offset(l.off);
+    }
     layer.default_font_page = l.default_page;
     for op in &l.ops {
         match op {
@@ -690,6 +784,42 @@ fn build_layer(l: &LayerSpec, pages: &[usize]) -> Layer {
             layer.lines.push(ln.clone());
             layer.lines.push(ln);
         }
+        3 => {
+            let (w, h) = (l.size.0.max(0) as usize, l.size.1.max(0) as usize);
+            let mut grid: Vec<Vec<Option<CellSpec>>> = vec![vec![None; w]; h];
+            let mut put = |x: i32, y: i32, c: CellSpec| {
+                if x >= 0 && y >= 0 && (x as usize) < w && (y as usize) < h {
+                    grid[y as usize][x as usize] = Some(c);
+                }
+            };
+            for op in &l.ops {
+                match op {
+                    CellOp::Set(x, y, c) => put(*x, *y, c.clone()),
+                    CellOp::Fill(x0, y0, x1, y1, seed, style) => {
+                        let mut rng = Rng::new(*seed);
+                        for y in *y0..=*y1 {
+                            for x in *x0..=*x1 {
+                                let c = gen_cell(&mut rng, *style, pages);
+                                put(x, y, c);
+                            }
+                        }
+                    }
+                }
+            }
+            layer.lines = grid
+                .into_iter()
+                .map(|row| {
+                    let mut ln = Line::new();
+                    for c in row {
+                        ln.chars.push(match c {
+                            Some(c) => to_char(&c),
+                            None => AttributedChar::invisible(),
+                        });
+                    }
+                    ln
+                })
+                .collect();
+        }
         _ => {}
     }
     layer.properties.is_visible = l.flags[0];
@@ -700,17 +830,28 @@ fn build_layer(l: &LayerSpec, pages: &[usize]) -> Layer {
     layer
 }
 
-fn build_font(f: usize) -> BitFont {
-    BitFont::from_ansi_font_page(f).unwrap_or_default()
+fn build_font(f: &FontSpec) -> BitFont {
+    match f {
+        FontSpec::Builtin(p) => BitFont::from_ansi_font_page(*p).unwrap_or_default(),
+        FontSpec::Custom { w, h, len, pat, name } => {
+            let mut font = BitFont::create_8(name.clone(), *w, *h, &font_pattern(*w, *h, *len, *pat));
+            if *len != 256 {
+                // `create_8` cuts all of the data into glyphs and says 256; a 512-glyph font is the same with its true length
+                font.length = *len as i32;
+                font.calculate_checksum();
+            }
+            font
+        }
+    }
 }
 
 fn build_doc(d: &DocSpec) -> Buffer {
     let mut buf = Buffer::new(d.size);
     buf.is_terminal_buffer = false;
-    buf.buffer_type = bt_of(d.bt);
-    buf.ice_mode = IceMode::from_byte(d.ice);
-    buf.palette_mode = PaletteMode::from_byte(d.pal_mode);
-    buf.font_mode = FontMode::from_byte(d.font_mode);
+    buf.buffer_type = BUFFER_TYPES[d.bt as usize % BUFFER_TYPES.len()];
+    buf.ice_mode = ICE_MODES[d.ice as usize % ICE_MODES.len()];
+    buf.palette_mode = PALETTE_MODES[d.pal_mode as usize % PALETTE_MODES.len()];
+    buf.font_mode = FONT_MODES[d.font_mode as usize % FONT_MODES.len()];
     let mut pal = Palette::new();
     pal.clear();
     for (r, g, b) in &d.palette {
@@ -720,7 +861,7 @@ fn build_doc(d: &DocSpec) -> Buffer {
     buf.clear_font_table();
     let pages: Vec<usize> = d.fonts.iter().map(|f| f.0).collect();
     for (slot, f) in &d.fonts {
-        buf.set_font(*slot, build_font(*f));
+        buf.set_font(*slot, build_font(f));
     }
     buf.layers.clear();
     for l in &d.layers {
@@ -902,6 +1043,150 @@ fn payload_has_nonscalar(chunks: &[&[u8]]) -> bool {
     false
 }
 
+// ------------------------------------------------------------------------------------------------ font slots
+
+/// canonical print of a font slot: name, width, height, length, number of glyphs, hash of their codes, hash of
+/// (row count, rows) per glyph in code order — what `Drv/IcyDraw.lean: slotFontObs` prints for the model
+fn font_line(f: &BitFont) -> String {
+    let mut keys: Vec<char> = f.glyphs.keys().copied().collect();
+    keys.sort_unstable();
+    let mut rows: Vec<u64> = Vec::new();
+    for k in &keys {
+        let g = &f.glyphs[k];
+        rows.push(g.data.len() as u64);
+        rows.extend(g.data.iter().map(|b| *b as u64));
+    }
+    format!("ok {} {} {} {} {} {} {}", hex(f.name.as_bytes()), f.size.width, f.size.height, f.length, keys.len(), fnv(keys.iter().map(|k| *k as u64)), fnv(rows))
+}
+
+/// the glyph rows of the codes 0..n in order when the table is exactly the codes 0..n with `height` rows each (what
+/// `create_8` builds from that data); `None` for any other table
+fn glyph_rows(f: &BitFont) -> Option<Vec<u8>> {
+    let n = f.glyphs.len() as u32;
+    let mut out = Vec::new();
+    for i in 0..n {
+        let g = f.glyphs.get(&char::from_u32(i)?)?;
+        if g.data.len() as i32 != f.size.height {
+            return None;
+        }
+        out.extend(&g.data);
+    }
+    Some(out)
+}
+
+thread_local! {
+    /// font payloads already handed to the model in this run (the built-in fonts recur in most documents)
+    static FONT_SEEN: std::cell::RefCell<std::collections::HashSet<u64>> = std::cell::RefCell::new(Default::default());
+}
+fn font_first_seen(p: &[u8]) -> bool {
+    let h = fnv(p.iter().map(|b| *b as u64));
+    FONT_SEEN.with(|s| s.borrow_mut().insert(h))
+}
+
+/// loads a file made of ICED + one FONT_<slot> chunk + END and reports what the real loader puts into the slot
+fn observe_font_load(slot: usize, payload: &[u8]) -> String {
+    let png = png_build(&[("ICED".into(), default_hdr()), (format!("FONT_{slot}"), payload.to_vec()), ("END".into(), vec![])]);
+    match load(&png) {
+        Ok(Ok(b)) => match b.get_font(slot) {
+            Some(f) => font_line(f),
+            None => "nofont".into(),
+        },
+        Ok(Err(e)) => classify_err(&e).to_string(),
+        Err(_) => "fail:panic".into(),
+    }
+}
+
+/// FONT_n payloads damaged in every header field and length, fed to the real loader (model: `decodeFontChunk`)
+fn malformed_font(run: &mut Run, rng: &mut Rng, base: &[u8]) {
+    let mut p = base.to_vec();
+    if p.len() < 4 {
+        return;
+    }
+    let nl = u32::from_le_bytes(p[0..4].try_into().unwrap()) as usize;
+    let ho = 4 + nl; // start of the PSF2 header
+    if p.len() < ho + 32 {
+        return;
+    }
+    let kind = rng.below(9);
+    let set32 = |p: &mut Vec<u8>, o: usize, v: u32| p[o..o + 4].copy_from_slice(&v.to_le_bytes());
+    let get32 = |p: &Vec<u8>, o: usize| u32::from_le_bytes(p[o..o + 4].try_into().unwrap());
+    match kind {
+        0 => {
+            let n = rng.below(p.len() as u64 + 1) as usize;
+            p.truncate(n);
+        }
+        1 => {
+            // the name length field
+            let v = match rng.below(3) {
+                0 => nl as u32 + 1 + rng.below(3) as u32,
+                1 => (nl as u32).saturating_sub(1),
+                _ => rng.below(1 << 16) as u32,
+            };
+            set32(&mut p, 0, v);
+        }
+        2 => {
+            // version / flags
+            let v = *rng.pick(&[1u32, 2, 0xFFFF_FFFF, 0]);
+            set32(&mut p, ho + if rng.chance(1, 2) { 4 } else { 12 }, v);
+        }
+        3 => {
+            // header size: more / less, with or without the matching number of bytes
+            let d = rng.range(1, 8) as usize;
+            set32(&mut p, ho + 8, 32 + d as u32);
+            if rng.chance(1, 2) {
+                let fill = rng.bytes(d);
+                let tail = p.split_off(ho + 32);
+                p.extend(fill);
+                p.extend(tail);
+            }
+        }
+        4 => {
+            // length
+            let cur = get32(&p, ho + 16);
+            let v = *rng.pick(&[cur + 1, cur.saturating_sub(1), 0, 0x8000_0000, 0xFFFF_FFFF, cur * 2]);
+            set32(&mut p, ho + 16, v);
+        }
+        5 => {
+            // charsize
+            let cur = get32(&p, ho + 20);
+            let v = *rng.pick(&[cur + 1, cur.saturating_sub(1), 0, 0x8000_0000, cur * 2]);
+            set32(&mut p, ho + 20, v);
+        }
+        6 => {
+            // height (with and without charsize following)
+            let cur = get32(&p, ho + 24);
+            let v = *rng.pick(&[cur + 1, cur.saturating_sub(1), 0, cur * 2]);
+            set32(&mut p, ho + 24, v);
+            if rng.chance(1, 2) {
+                set32(&mut p, ho + 20, v);
+            }
+        }
+        7 => {
+            // width: every value the consistency check accepts (1..=8) and its neighbours
+            let v = *rng.pick(&[0u32, 1, 2, 3, 4, 5, 6, 7, 8, 9, 15, 16, 17, 0x8000_0000, 0xFFFF_FFFF]);
+            set32(&mut p, ho + 28, v);
+        }
+        _ => {
+            // another container: PSF1 magic, or raw glyph data (a multiple of 256 bytes or not)
+            let tail = p.split_off(ho);
+            match rng.below(3) {
+                0 => {
+                    p.extend([0x36, 0x04, rng.below(4) as u8, rng.range(1, 3) as u8]);
+                    p.extend(&tail[32..]);
+                }
+                1 => p.extend(&tail[32..]),
+                _ => p.extend(&tail[31..]),
+            }
+        }
+    }
+    let slot = *rng.pick(&[0usize, 1, 300]);
+    set_inflight("malformed-font");
+    let obs = observe_font_load(slot, &p);
+    run.count(&format!("malformed-font-kind{kind}"));
+    run.count(&format!("malformed-font-{}", if obs.starts_with("ok") { "ok" } else { obs.as_str() }));
+    run.case(&format!("icydraw decfont {}", hex(&p)), &obs);
+}
+
 // ------------------------------------------------------------------------------------------------ one document
 
 fn classify_err(msg: &str) -> &'static str {
@@ -944,10 +1229,10 @@ fn load(bytes: &[u8]) -> Result<Result<Buffer, String>, String> {
 fn header_line(b: &Buffer) -> String {
     format!(
         "{} {} {} {} {} {}",
-        b.buffer_type.to_byte(),
-        b.ice_mode.to_byte(),
-        b.palette_mode.to_byte(),
-        b.font_mode.to_byte(),
+        bt_num(b.buffer_type),
+        ice_num(b.ice_mode),
+        pal_num(b.palette_mode),
+        fm_num(b.font_mode),
         b.get_width(),
         b.get_height()
     )
@@ -980,8 +1265,13 @@ fn one_doc(run: &mut Run, d: &DocSpec, opts: &Opts) {
     let src = match built {
         Ok(b) => b,
         Err(loc) => {
+            // a document of the quantifier that cannot even be built through the public API leaves the check vacuous: that is a
+            // failure of the run on this input, not something to count and skip
             run.count("build-panic");
             run.extra.push(("build-panic".into(), format!("{} at {}", input, loc)));
+            if opts.oracle {
+                run.oracle_fail(&format!("build-panic:{}", panic_site(&loc)), &input, &format!("building the document through the public API panicked at {loc}"));
+            }
             return;
         }
     };
@@ -1080,6 +1370,27 @@ fn one_doc(run: &mut Run, d: &DocSpec, opts: &Opts) {
             let _ = write!(op, " {}", cs.len());
         }
         run.case(&op, &keys.join(" "));
+    }
+    // ---- FONT_n chunks: writer (name field + PSF2 of width / height / length / glyph rows) and reader, per distinct payload
+    for (k, p) in &chunks {
+        let Some(slot) = k.strip_prefix("FONT_").and_then(|t| t.parse::<usize>().ok()) else { continue };
+        let Some(f) = src.get_font(slot) else { continue };
+        run.count(&format!("font-width={}", f.size.width));
+        run.count(&format!("font-height={}", match f.size.height { 0 => "0", 1 => "1", 2..=7 => "2..7", 8 => "8", 9..=15 => "9..15", 16 => "16", 17..=31 => "17..31", 32 => "32", _ => ">32" }));
+        run.count(&format!("font-length={}", f.length));
+        run.count(if slot == 0 { "font-slot=0" } else if slot < 256 { "font-slot=1..255" } else { "font-slot=256..300" });
+        if !font_first_seen(p) {
+            continue;
+        }
+        match glyph_rows(f) {
+            Some(data) => run.case(
+                &format!("icydraw encfont {} {} {} {} {}", hex(f.name.as_bytes()), f.size.width, f.size.height, f.length, hex(&data)),
+                &format!("ok {}", payload_digest(p)),
+            ),
+            None => run.count("font-irregular-table"),
+        }
+        set_inflight("font-chunk");
+        run.case(&format!("icydraw decfont {}", hex(p)), &observe_font_load(slot, p));
     }
     // ---- load
     if layer_chunks.iter().any(|cs| !cs.is_empty() && payload_has_nonscalar(cs)) {
@@ -1180,8 +1491,9 @@ fn one_doc(run: &mut Run, d: &DocSpec, opts: &Opts) {
         } else {
             for (k, f) in &fa {
                 let g = fb[k];
-                if f.name != g.name || f.size != g.size || f.length != g.length || f.to_psf2_bytes().ok() != g.to_psf2_bytes().ok() {
-                    fails.push(("font".into(), format!("slot {k}: saved {} {:?} loaded {} {:?}", f.name, f.size, g.name, g.size)));
+                if f.name != g.name || f.size != g.size || f.length != g.length || f.glyphs != g.glyphs || f.to_psf2_bytes().ok() != g.to_psf2_bytes().ok() {
+                    let which = if f.name != g.name { "name" } else if f.size != g.size { "size" } else if f.length != g.length { "length" } else { "glyphs" };
+                    fails.push((format!("font:{which}"), format!("slot {k}: saved {:?} {:?} length {} ({} glyphs), loaded {:?} {:?} length {} ({} glyphs)", f.name, f.size, f.length, f.glyphs.len(), g.name, g.size, g.length, g.glyphs.len())));
                     break;
                 }
             }
@@ -1446,14 +1758,18 @@ fn malformed_header(run: &mut Run, rng: &mut Rng) {
             h[3] = rng.next() as u8;
         }
     }
-    let png = png_build(&[("ICED".into(), h.clone()), ("END".into(), vec![])]);
+    header_case(run, &h);
+}
+
+fn header_case(run: &mut Run, h: &[u8]) {
+    let png = png_build(&[("ICED".into(), h.to_vec()), ("END".into(), vec![])]);
     set_inflight("malformed-header");
     let obs = match load(&png) {
         Ok(Ok(b)) => format!("ok {}", header_line(&b)),
         Ok(Err(e)) => classify_err(&e).to_string(),
         Err(_) => "fail:panic".into(),
     };
-    run.case(&format!("icydraw dechdr {}", hex(&h)), &obs);
+    run.case(&format!("icydraw dechdr {}", hex(h)), &obs);
 }
 
 // ------------------------------------------------------------------------------------------------ generators
@@ -1525,18 +1841,29 @@ fn gen_layer(rng: &mut Rng, pages: &[usize], max_w: i32, max_h: i32, style: u32)
         },
         size: (w, h),
         default_page: *rng.pick(pages),
-        shape: rng.below(3) as u8,
+        shape: rng.below(4) as u8,
         ops,
     }
 }
 
 fn gen_doc(rng: &mut Rng, max_w: i32, max_h: i32, style: u32) -> DocSpec {
     let nfonts = 1 + rng.below(3) as usize;
-    let mut fonts: Vec<(usize, usize)> = vec![(0, *rng.pick(&[0usize, 0, 1, 5]))];
+    // fonts: built-in ones (8 wide) and custom ones of every width 1..=8 and height 1..=32, 256 or 512 glyphs, in any slot
+    let custom = |rng: &mut Rng| FontSpec::Custom {
+        w: rng.range(1, 8) as u8,
+        h: {
+            let any = rng.range(1, 32) as u8;
+            *rng.pick(&[1u8, 2, 8, 14, 16, 19, 32, any])
+        },
+        len: if rng.chance(1, 4) { 512 } else { 256 },
+        pat: if rng.chance(1, 2) { rng.below(5) } else { rng.next() >> 16 },
+        name: rng.pick(&["", "F", "Schrift ü", "IBM VGA", "字体"]).to_string(),
+    };
+    let mut fonts: Vec<(usize, FontSpec)> = vec![(0, if rng.chance(1, 6) { custom(rng) } else { FontSpec::Builtin(*rng.pick(&[0usize, 0, 1, 5])) })];
     while fonts.len() < nfonts {
         let slot = *rng.pick(&[1usize, 2, 42, 255, 256, 257, 299, 300]);
         if !fonts.iter().any(|f| f.0 == slot) {
-            fonts.push((slot, rng.below(42) as usize));
+            fonts.push((slot, if rng.chance(1, 3) { custom(rng) } else { FontSpec::Builtin(rng.below(42) as usize) }));
         }
     }
     let pages: Vec<usize> = fonts.iter().map(|f| f.0).collect();
@@ -1638,7 +1965,7 @@ fn simple_doc(layer: LayerSpec) -> DocSpec {
         size: (4, 2),
         sauce: None,
         palette: Palette::dos_default().color_iter().map(|c| c.get_rgb()).collect(),
-        fonts: vec![(0, 0)],
+        fonts: vec![(0, FontSpec::Builtin(0))],
         layers: vec![layer],
     }
 }
@@ -1684,7 +2011,7 @@ fn boundary_docs() -> Vec<DocSpec> {
     // short/long threshold on every field
     for (ch, fg, bg, page) in [(255u32, 255u32, 255u32, 255usize), (256, 0, 0, 0), (0, 256, 0, 0), (0, 0, 256, 0), (0, 0, 0, 256), (255, 255, 255, 256)] {
         let mut d = simple_doc(plain_layer(2, 1, vec![CellOp::Set(0, 0, CellSpec { ch, fg, bg, page, attr: 0x03FF }), CellOp::Set(1, 0, vis(0x41))]));
-        d.fonts = vec![(0, 0), (255, 1), (256, 2)];
+        d.fonts = vec![(0, FontSpec::Builtin(0)), (255, FontSpec::Builtin(1)), (256, FontSpec::Builtin(2))];
         v.push(d);
     }
     // transparent colours
@@ -1707,7 +2034,7 @@ fn boundary_docs() -> Vec<DocSpec> {
         l.transparency = 200;
         l.mode = (k % 3) as u8;
         let mut d = simple_doc(l);
-        d.fonts = vec![(0, 0), (300, 3)];
+        d.fonts = vec![(0, FontSpec::Builtin(0)), (300, FontSpec::Builtin(3))];
         v.push(d);
     }
     // six layers, sauce, big palette
@@ -1721,6 +2048,197 @@ fn boundary_docs() -> Vec<DocSpec> {
     d.palette = (0..300).map(|i| (i as u8, (i / 2) as u8, (i / 3) as u8)).collect();
     d.sauce = Some(SauceSpec { title: "Title".into(), author: "Me".into(), group: "Grp".into(), comments: vec!["one".into(), "two".into()], letter_spacing: true, aspect_ratio: false });
     v.push(d);
+    v
+}
+
+/// font slots used by the families that exercise font pages: every byte boundary of the u16 page and every bit of it
+const PAGE_SLOTS: &[usize] = &[0, 1, 2, 4, 8, 16, 32, 64, 127, 128, 254, 255, 256, 257, 299, 300];
+
+fn pages_fonts() -> Vec<(usize, FontSpec)> {
+    // small custom fonts (8 x 2) keep these documents light; slot 0 stays the default font
+    PAGE_SLOTS.iter().map(|s| (*s, if *s == 0 { FontSpec::Builtin(0) } else { FontSpec::Custom { w: 8, h: 2, len: 256, pat: *s as u64 + 5, name: format!("p{s}") } })).collect()
+}
+
+/// SYSTEMATIC families: every listed field of the property takes every value of its boundary set (or of its whole
+/// range where that is small) while the rest of the document stays plain — one field at a time, so that a loss confined
+/// to one value of one field cannot hide.  All inside the property's quantifier unless the flag says otherwise.
+fn family_docs(thorough: bool) -> Vec<(DocSpec, bool)> {
+    let mut v: Vec<(DocSpec, bool)> = Vec::new();
+    let one = || plain_layer(1, 1, vec![CellOp::Set(0, 0, vis(0x41))]);
+    // (a) header modes: every variant of every mode field, all combinations
+    for bt in 0..BUFFER_TYPES.len() as u8 {
+        for ice in 0..ICE_MODES.len() as u8 {
+            for pm in 0..PALETTE_MODES.len() as u8 {
+                for fm in 0..FONT_MODES.len() as u8 {
+                    let mut d = simple_doc(one());
+                    (d.bt, d.ice, d.pal_mode, d.font_mode) = (bt, ice, pm, fm);
+                    d.size = (1, 1);
+                    v.push((d, true));
+                }
+            }
+        }
+    }
+    // (b) buffer size: every byte of the two u32 fields that a renderable size reaches
+    for size in [(0, 0), (1, 0), (0, 1), (1, 1), (80, 25), (255, 1), (256, 1), (257, 1), (300, 2), (1, 255), (1, 256), (1, 257), (2, 300), (132, 60)] {
+        let mut d = simple_doc(one());
+        d.size = size;
+        v.push((d, true));
+    }
+    // (c) font slots: every width 1..=8 x heights, every height 1..=32, 256 and 512 glyphs, every pattern, slot 0 and others
+    {
+        let mut specs: Vec<FontSpec> = Vec::new();
+        let heights: Vec<u8> = if thorough { (1..=32).collect() } else { vec![1, 2, 8, 14, 16, 32] };
+        for w in 1..=8u8 {
+            for h in &heights {
+                specs.push(FontSpec::Custom { w, h: *h, len: 256, pat: 5 + w as u64 * 40 + *h as u64, name: format!("f{w}x{h}") });
+            }
+        }
+        for h in 1..=32u8 {
+            let w = h % 8 + 1;
+            specs.push(FontSpec::Custom { w, h, len: if h % 3 == 0 { 512 } else { 256 }, pat: (h % 5) as u64, name: format!("g{w}x{h} ü") });
+        }
+        for (i, f) in specs.into_iter().enumerate() {
+            let mut d = simple_doc(plain_layer(2, 1, vec![CellOp::Set(0, 0, vis(0x41)), CellOp::Set(1, 0, CellSpec { ch: 0x42, fg: 7, bg: 0, page: if i % 3 == 0 { 0 } else { PAGE_SLOTS[i % PAGE_SLOTS.len()] }, attr: 0 })]));
+            // the font under test sits in slot 0 (it then also gives the preview its cell size) or in another slot
+            d.fonts = if i % 3 == 0 { vec![(0, f)] } else { vec![(0, FontSpec::Builtin(0)), (PAGE_SLOTS[i % PAGE_SLOTS.len()].max(1), f)] };
+            if i % 3 != 0 && PAGE_SLOTS[i % PAGE_SLOTS.len()] == 0 {
+                d.layers[0].ops.truncate(1);
+            }
+            v.push((d, true));
+        }
+        // outside the domain (model tie only): widths a one-byte glyph row cannot have — written, then refused by the reader
+        for w in [0u8, 9, 16, 255] {
+            let mut d = simple_doc(one());
+            d.fonts = vec![(0, FontSpec::Builtin(0)), (1, FontSpec::Custom { w, h: 3, len: 256, pat: 2, name: "wide".into() })];
+            v.push((d, false));
+        }
+    }
+    // (d) cells: the font page of short and long cells over every page slot; every attribute bit; every colour bit and byte
+    //     boundary; character boundaries — as rows of one layer
+    {
+        let n = PAGE_SLOTS.len() as i32;
+        let mut ops = Vec::new();
+        for (i, pg) in PAGE_SLOTS.iter().enumerate() {
+            ops.push(CellOp::Set(i as i32, 0, CellSpec { ch: 0x41, fg: 7, bg: 0, page: *pg, attr: 0 }));
+            ops.push(CellOp::Set(i as i32, 1, CellSpec { ch: 0x2588, fg: 7, bg: 0, page: *pg, attr: 0 }));
+            ops.push(CellOp::Set(i as i32, 2, CellSpec { ch: 0x41, fg: 256, bg: 0, page: *pg, attr: 0 }));
+        }
+        let mut d = simple_doc(plain_layer(n, 3, ops));
+        d.fonts = pages_fonts();
+        v.push((d, true));
+        for pg in PAGE_SLOTS {
+            // … and as the layer's default font page
+            let mut l = plain_layer(2, 1, vec![CellOp::Set(0, 0, CellSpec { ch: 0x41, fg: 7, bg: 0, page: *pg, attr: 0 })]);
+            l.default_page = *pg;
+            let mut d = simple_doc(l);
+            d.fonts = vec![(0, FontSpec::Builtin(0))];
+            if *pg != 0 {
+                d.fonts.push((*pg, FontSpec::Custom { w: 8, h: 2, len: 256, pat: 9, name: "d".into() }));
+            }
+            v.push((d, true));
+        }
+        let mut ops = Vec::new();
+        for k in 0..14 {
+            ops.push(CellOp::Set(k, 0, CellSpec { ch: 0x41, fg: 7, bg: 0, page: 0, attr: 1 << k }));
+            ops.push(CellOp::Set(k, 1, CellSpec { ch: 0x100, fg: 7, bg: 0, page: 0, attr: 1 << k }));
+            ops.push(CellOp::Set(k, 2, CellSpec { ch: 0x41, fg: 7, bg: 0, page: 0, attr: 0x3FFF & !(1 << k) }));
+        }
+        v.push((simple_doc(plain_layer(14, 3, ops)), true));
+        let cols: Vec<u32> = (0..32).map(|k| 1u32 << k).chain([0, 255, 256, 257, 65535, 65536, 0xFF_FFFF, 0x100_0000, 0x7FFF_FFFF, 0xFFFF_FFFF, 0x8000_0001]).collect();
+        let mut ops = Vec::new();
+        for (i, c) in cols.iter().enumerate() {
+            ops.push(CellOp::Set(i as i32, 0, CellSpec { ch: 0x41, fg: *c, bg: 0, page: 0, attr: 0 }));
+            ops.push(CellOp::Set(i as i32, 1, CellSpec { ch: 0x41, fg: 0, bg: *c, page: 0, attr: 0 }));
+            ops.push(CellOp::Set(i as i32, 2, CellSpec { ch: 0x100, fg: *c, bg: *c, page: 0, attr: 0 }));
+        }
+        v.push((simple_doc(plain_layer(cols.len() as i32, 3, ops)), true));
+        let chs: &[u32] = &[0, 1, 0x1F, 0x20, 0x7F, 0x80, 0xFF, 0x100, 0x101, 0x7FF, 0x800, 0xFFF, 0xD7FF, 0xE000, 0xFFFF, 0x10000, 0x1F600, 0xFFFFF, 0x100000, 0x10FFFF];
+        let ops = chs.iter().enumerate().map(|(i, c)| CellOp::Set(i as i32, 0, vis(*c))).collect();
+        v.push((simple_doc(plain_layer(chs.len() as i32, 1, ops)), true));
+    }
+    // (e) layer fields, one at a time, six layers to a document
+    {
+        let mut ls: Vec<LayerSpec> = Vec::new();
+        let base = || plain_layer(2, 2, vec![CellOp::Set(1, 1, vis(0x42))]);
+        for t in 0..=255u8 {
+            if thorough || t < 4 || t > 251 || t % 16 == 0 || t % 16 == 15 || [100, 127, 128, 129].contains(&t) {
+                let mut l = base();
+                l.transparency = t;
+                ls.push(l);
+            }
+        }
+        for o in -50..=50 {
+            let mut l = base();
+            l.off = (o, -o);
+            ls.push(l);
+        }
+        for c in [None, Some((0, 0, 0)), Some((1, 0, 0)), Some((0, 1, 0)), Some((0, 0, 1)), Some((255, 0, 0)), Some((0, 255, 0)), Some((0, 0, 255)), Some((127, 128, 129)), Some((255, 255, 255))] {
+            let mut l = base();
+            l.color = c;
+            ls.push(l);
+        }
+        for m in 0..3 {
+            for fl in 0..32u32 {
+                let mut l = base();
+                l.mode = m;
+                l.flags = [fl & 1 != 0, fl & 2 != 0, fl & 4 != 0, fl & 8 != 0, fl & 16 != 0];
+                ls.push(l);
+            }
+        }
+        for t in TITLES.iter().map(|t| t.to_string()).chain(["x".repeat(255), "x".repeat(256), "ä".repeat(300), "\u{1F600}".repeat(70), " ".into(), "a b  c ".into()]) {
+            let mut l = base();
+            l.title = t;
+            ls.push(l);
+        }
+        for (w, h) in [(0, 0), (1, 0), (0, 1), (2, 119), (2, 120), (199, 2), (200, 2), (127, 3), (128, 3), (129, 3), (200, 120), (255, 1), (1, 120)] {
+            // within 0..=200 x 0..=120 except (255, 1): first and last cell set, the rest empty
+            if w > 200 {
+                continue;
+            }
+            let mut l = plain_layer(w, h, if w > 0 && h > 0 { vec![CellOp::Set(0, 0, vis(0x41)), CellOp::Set(w - 1, h - 1, vis(0x5A))] } else { vec![] });
+            l.shape = 1;
+            ls.push(l);
+        }
+        for (i, l) in ls.iter_mut().enumerate() {
+            // every other layer is built directly (public fields, own grid) instead of through the setters the loader uses
+            if i % 2 == 1 && l.shape == 0 {
+                l.shape = 3;
+            }
+        }
+        for chunk in ls.chunks(6) {
+            let mut d = simple_doc(chunk[0].clone());
+            d.layers = chunk.to_vec();
+            v.push((d, true));
+        }
+    }
+    // (f) palette sizes at the boundaries of the quantifier and of the one-byte / 16-colour limits
+    for n in [1usize, 2, 15, 16, 17, 255, 256, 257, 299, 300] {
+        let mut d = simple_doc(one());
+        d.palette = (0..n).map(|i| (i as u8, (i >> 8) as u8 ^ 0x55, 255 - (i as u8))).collect();
+        v.push((d, true));
+    }
+    // (g) SAUCE: field lengths 0 / 1 / max, both flags in all combinations, 0 / 1 / 2 / 10 / 255 comment lines
+    {
+        let s = |n: usize, c: char| -> String { (0..n).map(|i| if i % 7 == 6 { ' ' } else { c }).collect::<String>().trim_end().to_string() };
+        for (tl, al, gl, nc, ls, ar) in [(0, 0, 0, 0, false, false), (1, 1, 1, 1, true, false), (35, 20, 20, 2, false, true), (34, 19, 19, 10, true, true), (35, 0, 20, 255, false, false), (0, 20, 0, 3, true, true)] {
+            let mut d = simple_doc(one());
+            d.sauce = Some(SauceSpec {
+                title: s(tl, 'T'),
+                author: s(al, 'A'),
+                group: s(gl, 'G'),
+                comments: (0..nc).map(|i| if i % 5 == 4 { String::new() } else { format!("c{i} {}", s(i % 60, 'x')) }).collect(),
+                letter_spacing: ls,
+                aspect_ratio: ar,
+            });
+            v.push((d, true));
+        }
+    }
+    // (h) model tie only: roles other than Normal / Image are written as Normal (transient paste layers of the editor)
+    for role in [1u8, 2] {
+        let mut l = one();
+        l.role = role;
+        v.push((simple_doc(l), false));
+    }
     v
 }
 
@@ -1825,6 +2343,21 @@ fn run_child(run: &mut Run, seed: u64, thorough: bool, replay: Option<&str>, cor
     for d in boundary_docs() {
         one_doc(run, &d, &Opts { oracle: true });
     }
+    {
+        let fam = family_docs(thorough);
+        run.extra.push(("systematic_families".into(), format!("{} documents: all 240 header-mode combinations, buffer sizes, font slots of every width 1..=8 / height 1..=32 / 256+512 glyphs, font pages, attribute bits, colour bits, character boundaries, layer fields one at a time, palette sizes, SAUCE shapes", fam.len())));
+        for (d, oracle) in fam {
+            run.count(if oracle { "family-doc" } else { "family-doc-outside-domain" });
+            one_doc(run, &d, &Opts { oracle });
+            if oracle && d.layers.len() == 1 && d.layers[0].ops.len() > 2 {
+                // the cell families once more with the source lines written directly (not through `Layer::set_char`)
+                let mut e = d.clone();
+                e.layers[0].shape = 3;
+                run.count("family-doc-direct-lines");
+                one_doc(run, &e, &Opts { oracle });
+            }
+        }
+    }
     // exhaustive small scope: every layer of size w x h (quick: up to 2 x 2, thorough: up to 3 x 2) over four kinds of cell
     // (short visible, long visible, plain invisible, invisible with another attribute bit) — every placement of row
     // terminators, skipped cells and short/long records relative to the width
@@ -1846,8 +2379,12 @@ fn run_child(run: &mut Run, seed: u64, thorough: bool, replay: Option<&str>, cor
                         let k = (code >> (2 * i)) & 3;
                         ops.push(CellOp::Set((i % w as u32) as i32, (i / w as u32) as i32, kinds[k as usize].clone()));
                     }
-                    one_doc(run, &simple_doc(plain_layer(w, h, ops)), &Opts { oracle: true });
-                    n += 1;
+                    one_doc(run, &simple_doc(plain_layer(w, h, ops.clone())), &Opts { oracle: true });
+                    // … and with the source lines written directly (not through `Layer::set_char`)
+                    let mut direct = plain_layer(w, h, ops);
+                    direct.shape = 3;
+                    one_doc(run, &simple_doc(direct), &Opts { oracle: true });
+                    n += 2;
                 }
             }
         }
@@ -1920,6 +2457,36 @@ fn run_child(run: &mut Run, seed: u64, thorough: bool, replay: Option<&str>, cor
     }
     for _ in 0..(if thorough { 1500 } else { 100 }) {
         malformed_header(run, &mut rng);
+    }
+    // every byte value of every mode field of the ICED header (the `_` arms of the four `from_byte` tables), and the high
+    // byte of the 16-bit buffer type, which the reader drops
+    for field in 6..11usize {
+        for b in 0..=255u8 {
+            let mut h = default_hdr();
+            h[field] = b;
+            header_case(run, &h);
+        }
+    }
+    // FONT_n payloads damaged field by field
+    {
+        let bases: Vec<Vec<u8>> = [
+            FontSpec::Custom { w: 8, h: 1, len: 256, pat: 2, name: "a".into() },
+            FontSpec::Custom { w: 6, h: 3, len: 256, pat: 7, name: "".into() },
+            FontSpec::Custom { w: 5, h: 2, len: 512, pat: 3, name: "ü".into() },
+        ]
+        .iter()
+        .map(|f| {
+            let f = build_font(f);
+            let mut p = (f.name.len() as u32).to_le_bytes().to_vec();
+            p.extend(f.name.as_bytes());
+            p.extend(f.to_psf2_bytes().unwrap_or_default());
+            p
+        })
+        .collect();
+        for _ in 0..(if thorough { 4000 } else { 240 }) {
+            let b = rng.pick(&bases).clone();
+            malformed_font(run, &mut rng, &b);
+        }
     }
     if thorough {
         // beyond the quantifier: one synthetic layer large enough to be split into continuation chunks (model tie only)
